@@ -94,7 +94,21 @@ def prepare(cfg):
     elif isinstance(b, list):
         opts['boolean_attributes'] = set(b)
     STATE['text'] = template_text()
-    if cfg.get('compiled_after') is not None:
+    if cfg.get('reloaded_after') is not None:
+        # a file template that first served a document of the other kind (XML declaration or not) and was
+        # re-cooked from the document under test after its file had changed
+        from chameleon.zpt import template as zt
+        from checks import hC16
+        hC16._install_model()
+        path = '/model/c07/page.pt'
+        first = {'xml': b'<?xml version="1.0"?>\n<a checked="x">first</a>', 'html': b'<a checked="x">first</a>'}[cfg['reloaded_after']]
+        hC16.FILES[path] = [first, 1]
+        t = zt.PageTemplateFile(path, auto_reload=True, **opts)
+        t.render()
+        hC16.FILES[path] = [STATE['text'].encode('utf-8'), 2]
+        t.render(**{name: None for name, kind, slot in cfg['vars']})     # re-cooked here, natively
+        STATE['tpl'] = t
+    elif cfg.get('compiled_after') is not None:
         # the same source compiled first under another boolean-attribute configuration, both through one
         # on-disk module cache
         from vlib.cachepair import compile_through_one_cache
